@@ -401,3 +401,9 @@ func Real(name string) float64 {
 
 // ImpureCalls counts calls to the CSPRNG / clock models so far (solver only).
 func ImpureCalls() int { return 0 }
+
+// OnRoundTrip registers the scripted HTTP server of the meek_lite harness (solver only):
+// it receives the X-Session-Id header and the request body and returns (status, response
+// body, transport failure).
+func OnRoundTrip(f func(sessionID string, body []byte) (int, []byte, bool)) {}
+func Dump(name string, b []byte) {}
